@@ -108,6 +108,11 @@ class JsonSchemaParser:
                 constraints['max_length'] = 0
         listed = [constraints['const']] if 'const' in constraints else constraints.get('enum')
         others = {k: v for k, v in constraints.items() if k not in ('const', 'enum')}
+        if 'const' in constraints and isinstance(constraints.get('enum'), (list, tuple)):
+            # both keywords hold: the constant has to be one of the listed values (same JSON type, same value)
+            const = constraints['const']
+            if not any(type(const) is type(v) and const == v for v in constraints['enum']):
+                return {'enum': []}
         if isinstance(listed, (list, tuple)) and others:
             # Rule takes const / enum alone (the other constraints are ignored next to them):
             # list the values that the other keywords allow
